@@ -32,6 +32,8 @@ def shards(tier, seed):
     per = 220 if tier == 'quick' else 9000
     budget = 45 if tier == 'quick' else 540
     _out = [{'kind': 'random', 'count': per, 'budget_s': budget, 'max_g': 10 if tier == 'quick' else 22} for _ in range(16)]
+    _out.append({'kind': 'deep', 'count': 2 if tier == 'quick' else 20, 'budget_s': budget,
+                 'depths': [1100, 1400] if tier == 'quick' else netgen.DEEP_THOROUGH})
     if tier == 'thorough':
         _out.append({'kind': 'suite', 'select': ['tests/cirbo/sat', 'tests/cirbo/minimization'], 'budget_s': 900})
     return _out
@@ -288,8 +290,12 @@ def gen_case(rng, spec):
             sels.append([j, j])
     if rng.random() < 0.15:
         sels.append([])
-    return {'kind': 'random', 'shape': shape, 'net': netgen.describe(net), 'rseed': rng.getrandbits(32),
+    case = {'kind': 'random', 'shape': shape, 'net': netgen.describe(net), 'rseed': rng.getrandbits(32),
             'shuffle': rng.random() < 0.2, 'selections': sels, 'edited': rng.random() < 0.3}
+    if spec.get('kind') == 'deep':   # a long dependency chain (thousands of clauses, depth far beyond the recursion limit)
+        case.update(net=netgen.deep_description(rng, spec['depths']), shape='deep', shuffle=False, edited=False,
+                    selections=[None, [0]])
+    return case
 
 
 def run_shard(spec, ctx):
